@@ -16,12 +16,14 @@ pub struct CoreScenario {
     /// signatures of open known findings for this property
     pub open: BTreeSet<String>,
     pub candidates: Vec<Flags>,
+    /// at most this many concurrent value/pattern/ls subscriptions (bounds the state space)
+    pub max_subs: usize,
 }
 
 impl CoreScenario {
     pub fn new(property: &str, setup: Vec<Op>, ops: Vec<Op>, probe: Probe, open: BTreeSet<String>) -> Self {
         let candidates = Flags::candidates(&open);
-        CoreScenario { property: property.to_owned(), setup, ops, probe, open, candidates }
+        CoreScenario { property: property.to_owned(), setup, ops, probe, open, candidates, max_subs: usize::MAX }
     }
 }
 
@@ -106,7 +108,9 @@ impl Scenario for CoreScenario {
             for (i, o) in history.iter().enumerate() {
                 let last = i + 1 == history.len();
                 let op = &self.ops[*o as usize];
-                if !model.enabled(op) {
+                let too_many = matches!(op, Op::Subscribe(..) | Op::PSubscribe(..) | Op::SubscribeLs(..))
+                    && model.subs.len() + model.ls_subs.len() >= self.max_subs;
+                if !model.enabled(op) || too_many {
                     if last {
                         return None;
                     }
